@@ -14,10 +14,12 @@ import (
 	"fmt"
 	"sort"
 	"strings"
+	"sync"
 	"sync/atomic"
 	"testing"
 	"time"
 
+	"github.com/centrifugal/centrifuge/internal/queue"
 	"github.com/centrifugal/protocol"
 	"pgregory.net/rapid"
 )
@@ -123,9 +125,10 @@ func vfC10Gen(rt *rapid.T) vfC10Case {
 	c.PushJL = rapid.IntRange(0, 3).Draw(rt, "pushJL") > 0
 	c.End = rapid.SampledFrom([]int{0, 0, 1, 2}).Draw(rt, "end")
 	n := rapid.IntRange(4, 26).Draw(rt, "nsteps")
-	kinds := []int{vfC10Pub, vfC10Pub, vfC10Pub, vfC10Pub, vfC10Pub, vfC10Pub, vfC10JJoin, vfC10JJoin, vfC10JLeave, vfC10JLeave,
-		vfC10Sub, vfC10Sub, vfC10Sub, vfC10Unsub, vfC10Unsub, vfC10Unsub, vfC10RelOps, vfC10RelOps, vfC10RelOps,
-		vfC10RelPush, vfC10RelPush, vfC10Adv, vfC10Adv, vfC10ArmPush, vfC10ArmPush}
+	kinds := []int{vfC10Pub, vfC10Pub, vfC10Pub, vfC10Pub, vfC10Pub, vfC10Pub, vfC10Pub, vfC10JJoin, vfC10JJoin, vfC10JLeave, vfC10JLeave,
+		vfC10Sub, vfC10Sub, vfC10Sub, vfC10Sub, vfC10Unsub, vfC10Unsub, vfC10Unsub, vfC10Unsub,
+		vfC10RelOps, vfC10RelOps, vfC10RelOps, vfC10RelOps, vfC10RelOps, vfC10RelOps,
+		vfC10RelPush, vfC10RelPush, vfC10Adv, vfC10Adv, vfC10ArmPush, vfC10ArmPush, vfC10ArmPush}
 	for i := 0; i < n; i++ {
 		s := vfC10Step{Kind: rapid.SampledFrom(kinds).Draw(rt, "kind")}
 		if i == 0 {
@@ -140,10 +143,15 @@ func vfC10Gen(rt *rapid.T) vfC10Case {
 				s.Hist = rapid.Bool().Draw(rt, "hist")
 			}
 		case vfC10Sub:
-			s.Gate = rapid.SampledFrom([]int{0, 1, 1, 2}).Draw(rt, "sgate")
+			s.Gate = rapid.SampledFrom([]int{0, 0, 1, 1, 2}).Draw(rt, "sgate")
 		case vfC10Unsub:
 			s.Gate = rapid.SampledFrom([]int{0, 1, 1, 2, 2}).Draw(rt, "ugate")
 			s.ByServer = rapid.Bool().Draw(rt, "byServer")
+			if rapid.IntRange(0, 3).Draw(rt, "lagBefore") == 0 {
+				// correlated prefix: park the writer at its next push and produce one, so that the unsubscribe meets a non-empty queue
+				pre := vfC10Step{Kind: vfC10Pub, Hist: c.HistMode == 1 || (c.HistMode == 2 && rapid.Bool().Draw(rt, "lagHist"))}
+				c.Steps = append(c.Steps, vfC10Step{Kind: vfC10ArmPush}, pre)
+			}
 		case vfC10Adv:
 			s.Adv = rapid.SampledFrom([]int{1, 20, 60, 450, 1200}).Draw(rt, "adv")
 		}
@@ -356,6 +364,30 @@ func vfC10Run(t *testing.T, cs vfC10Case, out *vfC10Out, isKnown func(string) bo
 
 		prods := map[string]*vfC10Prod{}
 		cmds := map[uint32]*vfC10Cmd{}
+		// With per-channel batching the moment a push is handed to the connection's queue is the channel writer's
+		// flush, not the producing operation: record it by wrapping the (unexported) flush function.
+		var flushMu sync.Mutex
+		flushMarks := map[string]int64{}
+		wrapped := false
+		wrapFlush := func() {
+			pcw := conn.Client.perChannelWriter
+			if wrapped || pcw == nil {
+				return
+			}
+			wrapped = true
+			pcw.mu.Lock()
+			orig := pcw.flushFn
+			pcw.flushFn = func(items []queue.Item) error {
+				m := mark()
+				flushMu.Lock()
+				for _, it := range items {
+					flushMarks[string(it.Data)] = m
+				}
+				flushMu.Unlock()
+				return orig(items)
+			}
+			pcw.mu.Unlock()
+		}
 		var srvSubDone, srvUnsubDone []int64 // completion marks of server-side ops that enqueue a push, in order
 		var subBusy, unsubBusy, connectBusy atomic.Bool
 		connected := false
@@ -504,6 +536,7 @@ func vfC10Run(t *testing.T, cs vfC10Case, out *vfC10Out, isKnown func(string) bo
 							connectBusy.Store(false)
 						}()
 						afterLaunch(gates...)
+						wrapFlush()
 						continue
 					}
 					if !cs.Uni {
@@ -514,6 +547,7 @@ func vfC10Run(t *testing.T, cs vfC10Case, out *vfC10Out, isKnown func(string) bo
 					if c := cmds[1]; c != nil {
 						c.done = mark()
 					}
+					wrapFlush()
 				}
 				subBusy.Store(true)
 				if cs.Mode == 0 {
@@ -676,9 +710,17 @@ func vfC10Run(t *testing.T, cs vfC10Case, out *vfC10Out, isKnown func(string) bo
 							items = append(items, vfC10Item{kind: vfC10ItStart, ch: c, seq: f.Seq, enq: f.Seq, desc: "connect-push-sub[" + c + "]"})
 						}
 					}
-					if it.kind == vfC10ItPush && subject && !batching {
-						if pr := prods[it.prodKey]; pr != nil {
-							it.enq = pr.endSeq
+					if it.kind == vfC10ItPush && subject {
+						if !batching {
+							if pr := prods[it.prodKey]; pr != nil {
+								it.enq = pr.endSeq
+							}
+						} else {
+							flushMu.Lock()
+							if m, ok := flushMarks[string(f.Raw)]; ok {
+								it.enq = m
+							}
+							flushMu.Unlock()
 						}
 					}
 				case r.Id != 0:
